@@ -19,6 +19,41 @@ spec fn keys_ok<ID>(m: Map<ID, ParseFileResult<ID>>, keys: Map<String, ResolvedI
     &&& forall |k: String| #[trigger] keys.contains_key(k) ==> exists |id: ID| m.contains_key(id) && (#[trigger] m[id]).ast is Some && key_of(m[id].ast->0) == k@ && keys[k] == kind_of(m[id].ast->0.item)
     &&& forall |id: ID| #[trigger] m.contains_key(id) && m[id].ast is Some ==> keys.contains_key(string_of(key_of(m[id].ast->0)))
 }
+// the rank that decides between several files defining the same item (C11): injective
+spec fn kind_rank_spec(k: ResolvedItemKind) -> u8 {
+    match k {
+        ResolvedItemKind::Interface => 0u8,
+        ResolvedItemKind::Parcelable => 1u8,
+        ResolvedItemKind::Enum => 2u8,
+        ResolvedItemKind::ForwardDeclaredParcelable => 3u8,
+        ResolvedItemKind::UnknownImport => 4u8,
+    }
+}
+// ... the kind registered under a key is the lowest-ranked kind among the stored trees with that key: with keys_ok (it IS the
+// kind of one of them) this makes the map a function of the set of stored (key, kind) pairs, whatever the iteration order
+spec fn keys_min<ID>(m: Map<ID, ParseFileResult<ID>>, keys: Map<String, ResolvedItemKind>) -> bool {
+    forall |id: ID| #[trigger] m.contains_key(id) && m[id].ast is Some ==>
+        kind_rank_spec(keys[string_of(key_of(m[id].ast->0))]) <= kind_rank_spec(kind_of(m[id].ast->0.item))
+}
+proof fn lemma_key_map_is_a_function<ID>(m: Map<ID, ParseFileResult<ID>>, k1: Map<String, ResolvedItemKind>, k2: Map<String, ResolvedItemKind>)
+    requires keys_ok(m, k1), keys_min(m, k1), keys_ok(m, k2), keys_min(m, k2)
+    ensures k1 =~= k2
+{
+    broadcast use axiom_string_ext;
+    broadcast use axiom_string_of;
+    assert forall |k: String| k1.contains_key(k) implies k2.contains_key(k) && k2[k] == k1[k] by {
+        let id = choose |id: ID| m.contains_key(id) && (#[trigger] m[id]).ast is Some && key_of(m[id].ast->0) == k@ && k1[k] == kind_of(m[id].ast->0.item);
+        assert(string_of(key_of(m[id].ast->0)) == k);
+        assert(k2.contains_key(k));
+        let id2 = choose |id2: ID| m.contains_key(id2) && (#[trigger] m[id2]).ast is Some && key_of(m[id2].ast->0) == k@ && k2[k] == kind_of(m[id2].ast->0.item);
+        assert(string_of(key_of(m[id2].ast->0)) == k);
+        assert(kind_rank_spec(k1[k]) <= kind_rank_spec(k2[k]) && kind_rank_spec(k2[k]) <= kind_rank_spec(k1[k]));
+    }
+    assert forall |k: String| k2.contains_key(k) implies k1.contains_key(k) by {
+        let id2 = choose |id2: ID| m.contains_key(id2) && (#[trigger] m[id2]).ast is Some && key_of(m[id2].ast->0) == k@ && k2[k] == kind_of(m[id2].ast->0.item);
+        assert(string_of(key_of(m[id2].ast->0)) == k);
+    }
+}
 // what validate returns for the current state (C01 / C12 / C13): one entry per id, each constrained by its own slot and the key map
 spec fn validated<ID>(m: Map<ID, ParseFileResult<ID>>, r: Map<ID, ParseFileResult<ID>>) -> bool {
     exists |keys: Map<String, ResolvedItemKind>| #[trigger] keys_ok(m, keys)
